@@ -160,8 +160,18 @@ def run_tomo_case(p, cj):
     rnd = random.Random(seed)
     # preparation circuit deliberately uses gates on arbitrary (uncoupled, unmeasured) pairs
     prep_g = ws.random_gates(N, rnd.choice([0, 3, 10]), rnd, "uniform")
-    prep = ws.qiskit_circuit(prep_g, N)
-    Larg = {"list": list(L), "tuple": tuple(L), "numpy": [np.int64(q) for q in L]}[cj["idx_type"]]
+    if cj["idx_type"] == "qubit-objects":
+        # the documented alternative: Qubit objects, here taken from a preparation circuit made of several registers
+        from qiskit import QuantumCircuit, QuantumRegister
+        k = rnd.randrange(1, N) if N > 1 else 1
+        regs = [QuantumRegister(k, "data"), QuantumRegister(N - k, "anc")] if N - k > 0 else [QuantumRegister(N, "data")]
+        prep = QuantumCircuit(*regs)
+        for nm, qs in prep_g:
+            getattr(prep, "id" if nm in ("id", "i") else nm)(*qs)
+        Larg = [prep.qubits[q] for q in L]
+    else:
+        prep = ws.qiskit_circuit(prep_g, N)
+        Larg = {"list": list(L), "tuple": tuple(L), "numpy": [np.int64(q) for q in L]}[cj["idx_type"]]
     if cj.get("full"):
         Larg = None
     qmap = {q: i for i, q in enumerate(L)}
@@ -191,7 +201,7 @@ def work_tomo(task, p):
     for i, L in enumerate(lists):
         conn = confs[(i + seed) % len(confs)]
         for api in ("tomography", "stabilizer-measurement"):
-            cj = _tomo_case(N, m, L, conn, rnd.randrange(1 << 30), api, ("list", "tuple", "numpy")[i % 3])
+            cj = _tomo_case(N, m, L, conn, rnd.randrange(1 << 30), api, ("list", "tuple", "numpy", "qubit-objects")[i % 4])
             run_tomo_case(p, cj)
         if N == m and L == sorted(L):
             for api in ("tomography", "stabilizer-measurement"):
